@@ -312,6 +312,8 @@ def targets(tier='quick'):
                 T.append(Target('export-import[%s,init=%s,dt=%s]' % (kind, 'None' if init_none else 'tensor', with_dt),
                                 'process_tensor.import_process_tensor', scen_export_import(kind, init_none, with_dt),
                                 post_export_import, RE, PROP, invoke=invoke_export_import, replay=rp('roundtrip'), max_paths=3000))
+    from . import wire
+    T += wire.targets_file(PROP)           # file-backed accessor and caps = in-memory ones (tnnorm)
     T.append(Target('import/bad-type', 'process_tensor.import_process_tensor', scen_import_bad, post_import_bad, RE, PROP,
                     invoke=invoke_export_import))
     return T
